@@ -159,6 +159,15 @@ impl<'a> Executor<'a> {
         if let Some(p) = par_override {
             run.par = p;
         }
+        self.exec_cfg(run, disk, body)
+    }
+
+    /// like `exec`, with an explicit run configuration (e.g. the fault-free twin of a faulty run)
+    pub fn exec_cfg<T, F>(&mut self, run: RunCfg, disk: rt::fs::Disk, body: F) -> Result<T, Abort>
+    where
+        T: Send + 'static,
+        F: FnOnce() -> T + Send + 'static,
+    {
         let sched = match &self.replay {
             Some((traces, strict)) => Sched::Replay { decisions: traces.get(self.n).cloned().unwrap_or_default(), strict: *strict },
             None => Sched::Generate { seed: rt::mix(self.cfg.sched_seed, self.n as u64), strategy: self.cfg.strategy.clone() },
@@ -449,20 +458,17 @@ pub struct KnownFindings {
 }
 
 impl KnownFindings {
+    /// /verif/known_findings.txt, one entry per line:
+    ///   finding: property=<id> key=<key> :: <what fails>      (open: suppresses exactly this key)
+    ///   fixed: property=<id> <commit> <what failed>            (suppresses nothing)
     pub fn load() -> Self {
-        let p = "/verif/known_findings.json";
         let mut open = vec![];
-        if let Ok(s) = std::fs::read_to_string(p) {
-            if let Ok(v) = serde_json::from_str::<Value>(&s) {
-                for f in v["findings"].as_array().cloned().unwrap_or_default() {
-                    if f["status"].as_str() == Some("open") {
-                        open.push((
-                            f["property"].as_str().unwrap_or("").to_string(),
-                            f["key"].as_str().unwrap_or("").to_string(),
-                            f["what"].as_str().unwrap_or("").to_string(),
-                        ));
-                    }
-                }
+        if let Ok(s) = std::fs::read_to_string("/verif/known_findings.txt") {
+            for line in s.lines() {
+                let Some(rest) = line.strip_prefix("finding: property=") else { continue };
+                let Some((prop, rest)) = rest.split_once(" key=") else { continue };
+                let (key, what) = rest.split_once(" :: ").unwrap_or((rest, ""));
+                open.push((prop.trim().to_string(), key.to_string(), what.to_string()));
             }
         }
         KnownFindings { open }
